@@ -42,6 +42,7 @@ from common import cstr, cbool, clist, cpair
 
 THEOREMS = ['C18_run_fresh_state', 'C18_history_independent',
             'C18_shared_state_would_leak', 'C18_output_order_irrelevant',
+            'C18_deterministic_model',
             'C18_volume_text_order_irrelevant',
             'C18_remove_keys_order_irrelevant',
             'C18_sorted_depends_on_set_only',
@@ -333,7 +334,8 @@ def _sweep(res, tier, seed, rng, scratch):
     generated = [c18_gen.gen_deck(rng) for _ in range(n_gen)]
     broken = [c18_gen.break_deck(rng, rng.choice(generated))
               for _ in range(n_broken)]
-    jobs = corpus + generated + broken
+    regression = c18_gen.regression_jobs()
+    jobs = regression + corpus + generated + broken
     hashseeds = [0, 1, 4242] if quick else \
         [0, 1, 2, 3, 17, 4242, 65537, 4294967295]
     hashseeds[-1] = rng.randrange(4294967296)
@@ -541,8 +543,10 @@ def observe(job):
 def model_tie(res, tier, rng, jobs, fresh_res, hashseeds):
     quick = tier == 'quick'
     limit = 120 if quick else 1500
-    order = list(range(len(jobs)))
+    n_reg = sum(1 for j in jobs if j['tags'][0] == 'regression')
+    order = list(range(n_reg, len(jobs)))
     rng.shuffle(order)
+    order = list(range(n_reg)) + order
     histories, current = [], []
     n_cases = n_in = n_warm_mismatch = 0
     size_budget = 0
